@@ -77,7 +77,7 @@ def shortest(bits):
             if d == 0:
                 continue
             if round_f32(d * scale) == mag:
-                cands.append((abs(d * scale - v), d % 2, d))
+                cands.append((abs(d * scale - v), -d, d))      # exact ties: Rust's Grisu/Dragon shortest rounds the last digit up
         if cands:
             cands.sort()
             d = cands[0][2]
